@@ -27,6 +27,7 @@ def gen_cases(tier, seed):
                       "mode": ["multi-class", "binary", "categorical"][k % 3], "opt": ["SGD", "Adam"][(k // 3) % 2],
                       "callbacks": bool(k % 4 == 1), "extra_metric": bool(k % 5 == 2), "test": bool(k % 3 == 1), "leftover": int(rng.integers(0, 2)),
                       "extra_param": bool(k % 4 == 2), "premode": [None, "sub-eval", "all-eval", None][k % 4],
+                      "peek": bool(k % 5 == 1), "callback_leaves_eval": bool(k % 6 == 3), "list_loader": bool(k % 7 == 4),
                       "seed": int(rng.integers(2 ** 31))})
     return cases
 
@@ -72,6 +73,17 @@ def run_case(ns, ctx, c):
         return T(np.array(Xb)), T(np.array(yb))
     Xtr, ytr = data(c["batches"])
     train_loader = DataLoader(Xtr, ytr, c["bs"], transform=transform)
+    if c.get("list_loader"):
+        # any iterable of batches with a length is a loader; here the batches have unequal sizes
+        sizes, pos, batches_ = [], 0, []
+        while pos < len(ytr):
+            sz = min(len(ytr) - pos, [c["bs"], c["bs"] + 2, 2, c["bs"] + 1][len(sizes) % 4])
+            if sz < 2:
+                break
+            batches_.append(transform(None, Xtr[pos:pos + sz], ytr[pos:pos + sz])); sizes.append(sz); pos += sz
+        train_loader = batches_
+    if c.get("peek") and len(train_loader) > 1:
+        xb0, yb0 = next(iter(train_loader))                 # the caller looked at one batch (e.g. to infer the input size) before fit
     val_loader = None
     if c["val"]:
         Xv, yv = data(c["val_batches"])
@@ -143,9 +155,13 @@ def run_case(ns, ctx, c):
     viol = []
     try:
         start_grad = grad_on()
+        def on_train(m, l):
+            cb["train"] += 1
+            if c.get("callback_leaves_eval"):
+                m.eval()                                     # e.g. a callback that measured something in eval mode and did not switch back
         try:
             hist = tr.fit(train_loader, c["epochs"], validation_loader=val_loader,
-                          on_train_epoch=(lambda m, l: cb.__setitem__("train", cb["train"] + 1)) if c["callbacks"] else None,
+                          on_train_epoch=on_train if (c["callbacks"] or c.get("callback_leaves_eval")) else None,
                           on_validation_epoch=(lambda m, l: cb.__setitem__("val", cb["val"] + 1)) if c["callbacks"] else None)
         except Exception as e:
             import traceback
@@ -263,7 +279,7 @@ def run_case(ns, ctx, c):
         viol.append(V("grammar:number-of-training-forwards", f"{n_train_fw} training forwards, expected {E * nb}"))
     if start_grad != end_grad or not end_grad:
         viol.append(V("grammar:gradient-mode-not-restored", f"gradient mode before fit {start_grad}, after fit {end_grad}"))
-    if c["callbacks"] and (cb["train"] != E or (c["val"] and cb["val"] != E)):
+    if (c["callbacks"] or c.get("callback_leaves_eval")) and (cb["train"] != E or (c["callbacks"] and c["val"] and cb["val"] != E)):
         viol.append(V("grammar:callbacks", f"callbacks called {cb} times for {E} epochs"))
     # ---------------------------------------------------------------- history
     def close(a, b):
@@ -323,7 +339,8 @@ def run_case(ns, ctx, c):
     for v in viol:
         if v["sig"] not in seen:
             seen.add(v["sig"]); vv.append(v)
-    cfg = [c["epochs"], nb, c["val"], c["evaluator"], mode, c["opt"], c["callbacks"], c["extra_metric"], c["test"], c.get("extra_param"), c.get("premode")]
+    cfg = [c["epochs"], nb, c["val"], c["evaluator"], mode, c["opt"], c["callbacks"], c["extra_metric"], c["test"], c.get("extra_param"), c.get("premode"),
+           c.get("peek"), c.get("callback_leaves_eval"), c.get("list_loader")]
     kinds = {}
     for e in fit_events + test_events:
         kinds[e["kind"]] = kinds.get(e["kind"], 0) + 1
@@ -333,7 +350,8 @@ def run_case(ns, ctx, c):
     return {"key": json.dumps(cfg) if (E >= 2 or nb >= 2) else None, "viol": vv, "counters": counters,
             "cover": {"modes": [mode], "optimizers": [c["opt"]], "features": [f for f, b in (("validation", c["val"]), ("evaluator", c["evaluator"]), ("callbacks", c["callbacks"]),
                                                                                       ("extra-metric", c["extra_metric"]), ("test", c["test"]),
-                                                                                      ("optimizer-param-outside-model", c.get("extra_param")), ("premode:" + str(c.get("premode")), bool(c.get("premode")))) if b]},
+                                                                                      ("optimizer-param-outside-model", c.get("extra_param")), ("loader-peeked-before-fit", c.get("peek")),
+                                                                                      ("callback-leaves-eval-mode", c.get("callback_leaves_eval")), ("list-loader-unequal-batches", c.get("list_loader")), ("premode:" + str(c.get("premode")), bool(c.get("premode")))) if b]},
             "sample": {"config": c, "trace_kinds": [e["kind"] for e in fit_events[:40]]}}
 
 
